@@ -168,20 +168,33 @@ theorem strict_auto_enabled_iff (cfg : Option Bool) (ps : List Policy) :
   | none => simp [effectiveStrict, hasTLSClientAuth]
   | some b => cases b <;> simp [effectiveStrict]
 
-/-- Under strict checking a TLS request enters the handler chain iff its SNI and the host part
-    of its Host header (as the enforcement handler computes it) are equal for `strings.EqualFold`. -/
+/-- what passing the strict check means, and which route then runs -/
+theorem serve_strict_handler (sites : List Bytes) (sni host : Bytes) (site : Option Nat)
+    (hs : serve true sites (some sni) host = .handler site) :
+    isAscii sni = true ∧ equalFold sni (enforcementHost host) = true ∧ site = route sites host := by
+  unfold serve at hs
+  cases ha : isAscii sni <;> cases he : equalFold sni (enforcementHost host) <;> simp [ha, he] at hs
+  exact ⟨rfl, rfl, hs.symm⟩
+
+/-- Under strict checking a TLS request enters the handler chain iff its SNI is ASCII and equal,
+    for `strings.EqualFold`, to the host part of its Host header (as the enforcement handler
+    computes it). -/
 theorem strict_421 (sites : List Bytes) (sni host : Bytes) :
-    serve true sites (some sni) host = .misdirected ↔ ¬ foldSame sni (enforcementHost host) := by
+    serve true sites (some sni) host = .misdirected ↔
+      ¬ (isAscii sni = true ∧ foldSame sni (enforcementHost host)) := by
   unfold serve foldSame
-  cases he : equalFold sni (enforcementHost host)
-  · simp [he, (equalFold_false_iff _ _).mp he]
-  · simp [he, (equalFold_iff _ _).mp he]
+  cases ha : isAscii sni <;> cases he : equalFold sni (enforcementHost host)
+  · simp [ha, he]
+  · simp [ha, he]
+  · simp [ha, he, (equalFold_false_iff _ _).mp he]
+  · simp [ha, he, (equalFold_iff _ _).mp he]
 
 /-- Letter case of the Host and an appended `:port` make no difference to the check. -/
 theorem strict_case_port_insensitive (sites : List Bytes) (sni name host port : Bytes)
     (hplain : noSpecial host = true) (hport : noSpecial port = true) (hcase : foldKey host = foldKey name) :
-    (serve true sites (some sni) (host ++ cColon :: port) = .misdirected ↔ ¬ foldSame sni name) ∧
-    (serve true sites (some sni) host = .misdirected ↔ ¬ foldSame sni name) := by
+    (serve true sites (some sni) (host ++ cColon :: port) = .misdirected ↔
+        ¬ (isAscii sni = true ∧ foldSame sni name)) ∧
+    (serve true sites (some sni) host = .misdirected ↔ ¬ (isAscii sni = true ∧ foldSame sni name)) := by
   have e1 : enforcementHost (host ++ cColon :: port) = host := by
     simp [enforcementHost, splitHostPort_plain host port hplain hport]
   have e2 : enforcementHost host = host := by
@@ -190,6 +203,11 @@ theorem strict_case_port_insensitive (sites : List Bytes) (sni name host port : 
   unfold foldSame
   rw [hcase]
   exact ⟨Iff.rfl, Iff.rfl⟩
+
+/-- a non-ASCII server name never passes the strict check (RFC 6066: server names are ASCII) -/
+theorem strict_refuses_non_ascii_sni (sites : List Bytes) (sni host : Bytes) (h : isAscii sni = false) :
+    serve true sites (some sni) host = .misdirected := by
+  rw [strict_421]; rintro ⟨ha, _⟩; rw [h] at ha; cases ha
 
 /-! ### D1. the routed site is EqualFold-equal to the SNI
 
@@ -209,16 +227,12 @@ theorem strict_binds_routing_host_partial (sites : List Bytes) (sni host : Bytes
     (hs : serve true sites (some sni) host = .handler (some k)) :
     ∃ site, sites[k]? = some site ∧ foldSame sni site := by
   have hrh : routingHost host = enforcementHost host := by simpa [bracketTrimmed] using hx
-  unfold serve at hs
-  cases he : equalFold sni (enforcementHost host)
-  · simp [he] at hs
-  · simp only [he, Bool.not_true, Bool.and_false] at hs
-    have hr : routeFrom 0 (routingHost host) sites = some k := by
-      simpa [route] using hs
-    obtain ⟨_, site, h1, h2⟩ := routeFrom_some _ _ _ _ hr
-    refine ⟨site, by simpa using h1, ?_⟩
-    unfold foldSame
-    rw [(equalFold_iff _ _).mp he, ← hrh, (equalFold_iff _ _).mp h2]
+  obtain ⟨_, he, hr⟩ := serve_strict_handler sites sni host _ hs
+  have hr : routeFrom 0 (routingHost host) sites = some k := by simpa [route] using hr.symm
+  obtain ⟨_, site, h1, h2⟩ := routeFrom_some _ _ _ _ hr
+  refine ⟨site, by simpa using h1, ?_⟩
+  unfold foldSame
+  rw [(equalFold_iff _ _).mp he, ← hrh, (equalFold_iff _ _).mp h2]
 
 /-- same for the catch-all route: the host the request is routed by is the SNI -/
 theorem strict_binds_catch_all_partial (sites : List Bytes) (sni host : Bytes) (site : Option Nat)
@@ -226,10 +240,8 @@ theorem strict_binds_catch_all_partial (sites : List Bytes) (sni host : Bytes) (
     (hs : serve true sites (some sni) host = .handler site) :
     foldSame sni (routingHost host) := by
   have hrh : routingHost host = enforcementHost host := by simpa [bracketTrimmed] using hx
-  by_cases hm : serve true sites (some sni) host = .misdirected
-  · rw [hm] at hs; cases hs
-  · rw [strict_421] at hm
-    rw [hrh]; exact Classical.not_not.mp hm
+  obtain ⟨_, he, _⟩ := serve_strict_handler sites sni host _ hs
+  rw [hrh]; exact (equalFold_iff _ _).mp he
 
 /-- a bracket-free SNI that passes the strict check forces the Host out of the excluded region -/
 theorem strict_pass_not_bracketTrimmed (sites : List Bytes) (sni host : Bytes) (site : Option Nat)
@@ -240,11 +252,10 @@ theorem strict_pass_not_bracketTrimmed (sites : List Bytes) (sni host : Bytes) (
   | true =>
     exfalso
     obtain ⟨h1, h2⟩ := bracketTrimmed_shape host hb
-    by_cases hm : serve true sites (some sni) host = .misdirected
-    · rw [hm] at hs; cases hs
-    · rw [strict_421, h1] at hm
-      have := noBrackets_of_fold sni host (Classical.not_not.mp hm) h2
-      rw [hsni] at this; cases this
+    obtain ⟨_, he, _⟩ := serve_strict_handler sites sni host _ hs
+    rw [h1] at he
+    have := noBrackets_of_fold sni host ((equalFold_iff _ _).mp he) h2
+    rw [hsni] at this; cases this
 
 /-- strict SNI-Host binds the routed site to the SNI up to EqualFold (every SNI without brackets) -/
 theorem strict_binds_routing_host (sites : List Bytes) (sni host : Bytes) (k : Nat)
@@ -266,21 +277,17 @@ theorem strict_binds_catch_all (sites : List Bytes) (sni host : Bytes) (site : O
 The TLS side (MatchServerName → certmagic.MatchWildcard) compares names after `strings.ToLower`;
 the HTTP side (strict check, host matcher) with `strings.EqualFold`.  The two differ on `ſ`
 (U+017F): `EqualFold("ſecret.test", "secret.test")` holds, the lower-cased strings differ.
+Before /repo commit 110cdf0 the strict check was `EqualFold` alone and the no-bypass clause was
+FALSE (`Witness.strict_unicode_fold_old_code_fails`, `Witness.client_auth_not_bypassed_old_code_fails`,
+reproduced then with a real handshake; regression lines in corpus/C19).  The check now also
+refuses non-ASCII server names, and on ASCII names the two equivalences coincide: -/
 
-FULL STATEMENT — "… routed only to a site whose name selects the same connection policies as the SNI":
-  `∀ sites sni host k, noBrackets sni → serve true sites (some sni) host = .handler (some k) →
-     ∃ site, sites[k]? = some site ∧ namesSameHost sni site`
-and with it the no-bypass clause of the property are FALSE on the pinned tree
-(`Witness.strict_unicode_fold_full_fails`, `Witness.client_auth_not_bypassed_full_fails`:
-SNI `ſecret.test` does not match the client-auth policy `sni secret.test`, falls to the catch-all
-policy, and `Host: secret.test` then passes the strict check) — reproduced end to end with a real
-handshake (known finding `…:unicode-fold-sni`).  They hold for every ASCII SNI: -/
-
-theorem strict_binds_policy_name_partial (sites : List Bytes) (sni host : Bytes) (k : Nat)
-    (hsni : noBrackets sni = true) (hascii : isAscii sni = true)
+theorem strict_binds_policy_name (sites : List Bytes) (sni host : Bytes) (k : Nat)
+    (hsni : noBrackets sni = true)
     (hsites : ∀ s ∈ sites, isAscii s = true)
     (hs : serve true sites (some sni) host = .handler (some k)) :
     ∃ site, sites[k]? = some site ∧ namesSameHost sni site := by
+  obtain ⟨hascii, _, _⟩ := serve_strict_handler sites sni host _ hs
   obtain ⟨site, h1, h2⟩ := strict_binds_routing_host sites sni host k hsni hs
   refine ⟨site, h1, ?_⟩
   have hm : site ∈ sites := List.mem_of_getElem? h1
@@ -289,16 +296,17 @@ theorem strict_binds_policy_name_partial (sites : List Bytes) (sni host : Bytes)
   rw [← foldKey_ascii sni hascii, ← foldKey_ascii site (hsites site hm)]
   exact h2
 
-/-- **no bypass** (every ASCII, bracket-free SNI).  A server with a client-auth policy and no
-    explicit `strict_sni_host`: whenever a TLS request is routed to the handler of a site, the
-    policy that first-match assigned to the connection (by its SNI) is the very policy first-match
-    assigns to that site's name — so a site behind a client-auth policy cannot be reached over a
-    connection negotiated under another policy.  (ip matchers do not look at the name; a regexp
-    matcher's verdict is assumed equal for the two spellings, which differ at most in ASCII case.) -/
-theorem client_auth_not_bypassed_partial (ps : List Policy) (sites : List Bytes) (sni host site : Bytes)
+/-- **no bypass** (every bracket-free SNI; ASCII site names).  A server with a client-auth policy
+    and no explicit `strict_sni_host`: whenever a TLS request is routed to the handler of a site,
+    the policy that first-match assigned to the connection (by its SNI) is the very policy
+    first-match assigns to that site's name — so a site behind a client-auth policy cannot be
+    reached over a connection negotiated under another policy.  (ip matchers do not look at the
+    name; a regexp matcher's verdict is assumed equal for the two spellings, which differ at most
+    in ASCII case.) -/
+theorem client_auth_not_bypassed (ps : List Policy) (sites : List Bytes) (sni host site : Bytes)
     (v : Nat → Bool) (k : Nat)
     (hauth : ∃ p ∈ ps, p.clientAuth = true)
-    (hsni : noBrackets sni = true) (hascii : isAscii sni = true)
+    (hsni : noBrackets sni = true)
     (hsites : ∀ s ∈ sites, isAscii s = true)
     (hs : serve (effectiveStrict none ps) sites (some sni) host = .handler (some k))
     (hk : sites[k]? = some site) :
@@ -306,7 +314,7 @@ theorem client_auth_not_bypassed_partial (ps : List Policy) (sites : List Bytes)
   have hstrict : effectiveStrict none ps = true :=
     (strict_auto_enabled_iff none ps).mpr (Or.inr ⟨rfl, hauth⟩)
   rw [hstrict] at hs
-  obtain ⟨site', h1, h2⟩ := strict_binds_policy_name_partial sites sni host k hsni hascii hsites hs
+  obtain ⟨site', h1, h2⟩ := strict_binds_policy_name sites sni host k hsni hsites hs
   rw [hk] at h1; cases h1
   rw [first_match_dead_index, first_match_dead_index]
   exact firstMatchFrom_congr ⟨sni, v⟩ ⟨site, v⟩ ps 0 h2 rfl
@@ -442,12 +450,12 @@ theorem strict_default_iff_some_policy_requests_cert (pcs : List (Policy × Opti
 /-- the core of the no-bypass argument, for any way strict checking came to be in effect -/
 theorem strict_binds_policy (ps : List Policy) (sites : List Bytes) (sni host site : Bytes)
     (v : Nat → Bool) (k : Nat)
-    (hsni : noBrackets sni = true) (hascii : isAscii sni = true)
+    (hsni : noBrackets sni = true)
     (hsites : ∀ s ∈ sites, isAscii s = true)
     (hs : serve true sites (some sni) host = .handler (some k))
     (hk : sites[k]? = some site) :
     choose false ps ⟨sni, v⟩ = choose false ps ⟨site, v⟩ := by
-  obtain ⟨site', h1, h2⟩ := strict_binds_policy_name_partial sites sni host k hsni hascii hsites hs
+  obtain ⟨site', h1, h2⟩ := strict_binds_policy_name sites sni host k hsni hsites hs
   rw [hk] at h1; cases h1
   rw [first_match_dead_index, first_match_dead_index]
   exact firstMatchFrom_congr ⟨sni, v⟩ ⟨site, v⟩ ps 0 h2 rfl
@@ -545,7 +553,7 @@ theorem strict_option_spec (o : StrictOpt) (cfg : Option Bool) (h : strictOption
   cases o <;> simp_all [strictOption] <;> (cases h; simp)
 
 /-- **through the Caddyfile**: a server assembled from site blocks, strict checking not switched
-    off.  If a TLS request (ASCII, bracket-free SNI) is routed to the handler of a site whose
+    off.  If a TLS request (bracket-free SNI) is routed to the handler of a site whose
     `client_auth` block makes its connection policy ask for a client certificate, then the
     connection's policy is the one first-match gives that site's own name. -/
 theorem caddyfile_client_auth_site_bound (sites : List Site) (cfg : Option Bool) (sni host name : Bytes)
@@ -553,7 +561,7 @@ theorem caddyfile_client_auth_site_bound (sites : List Site) (cfg : Option Bool)
     (hcfg : cfg ≠ some false)
     (hk : sites[k]? = some (name, some conf))
     (hb : provisionPolicyCA (some conf) = some b) (hreq : b.bits.auth ≠ .noClientCert)
-    (hsni : noBrackets sni = true) (hascii : isAscii sni = true)
+    (hsni : noBrackets sni = true)
     (hnames : ∀ s ∈ sites, isAscii s.1 = true)
     (hs : serve (effectiveStrict cfg ((adaptPolicies sites).map (·.1))) (sites.map (·.1)) (some sni) host
             = .handler (some k)) :
@@ -572,7 +580,7 @@ theorem caddyfile_client_auth_site_bound (sites : List Site) (cfg : Option Bool)
       unfold adaptPolicies
       refine List.mem_append_left _ (List.mem_filterMap.mpr ⟨(name, some conf), hmem, rfl⟩)
   rw [hstrict] at hs
-  refine strict_binds_policy _ (sites.map (·.1)) sni host name v k hsni hascii ?_ hs ?_
+  refine strict_binds_policy _ (sites.map (·.1)) sni host name v k hsni ?_ hs ?_
   · intro s hs'
     obtain ⟨x, hx, rfl⟩ := List.mem_map.mp hs'
     exact hnames x hx
@@ -629,10 +637,13 @@ example : noSpecial nAup = true ∧ noSpecial [52, 52, 51] = true ∧ foldKey nA
 example : noBrackets nAup = true ∧ noBrackets [91, 97, 93] = false := by decide
 example : bracketTrimmed (nAup ++ cColon :: [52, 52, 51]) = false ∧ bracketTrimmed [91, 58, 58, 49, 93, 58, 56, 48] = false := by decide
 -- the no-bypass hypothesis set is inhabited
-example : (∃ p ∈ exPolicies, p.clientAuth = true) ∧ noBrackets nAup = true ∧ isAscii nAup = true ∧
+example : (∃ p ∈ exPolicies, p.clientAuth = true) ∧ noBrackets nAup = true ∧
     (∀ s ∈ [nA], isAscii s = true) ∧
     serve (effectiveStrict none exPolicies) [nA] (some nAup) (nA ++ cColon :: [56, 48]) = .handler (some 0) := by
-  refine ⟨⟨_, List.mem_cons_of_mem _ (List.mem_cons_of_mem _ (List.mem_cons_self ..)), rfl⟩, by decide, by decide, by decide, by decide⟩
+  refine ⟨⟨_, List.mem_cons_of_mem _ (List.mem_cons_of_mem _ (List.mem_cons_self ..)), rfl⟩, by decide, by decide, by decide⟩
+-- a non-ASCII SNI is refused whatever the Host
+example : serve true [[115, 46, 116]] (some [128, 46, 116]) [115, 46, 116] = .misdirected ∧
+    serve true [[115, 46, 116]] (some [128, 46, 116]) [128, 46, 116] = .misdirected := by decide
 -- the two equivalences: ſ.t is EqualFold-equal to s.t but does not lower to it; K.t lowers to k.t
 example : foldSame [128, 46, 116] [115, 46, 116] ∧ ¬ namesSameHost [128, 46, 116] [115, 46, 116] ∧
     namesSameHost [129, 46, 116] [107, 46, 116] ∧ namesSameHost [130] [131] ∧ isAscii [128] = false := by decide
